@@ -20,7 +20,9 @@ def main():
     a = sys.argv[3:]
     if '--tier' in a: tier = a[a.index('--tier') + 1]
     if '--props' in a: props = a[a.index('--props') + 1].split(',')
-    wt = '/tmp/seed_' + pid
+    root = a[a.index('--root') + 1] if '--root' in a else '/tmp/seed_'
+    suffix = a[a.index('--suffix') + 1] if '--suffix' in a else ''
+    wt = root + pid
     sd = os.path.join(wt, '_seed')
     patch = os.path.join(sd, 'patch%s.diff' % k)
     meta = dict(property=pid, change=int(k), evaluated_at=time.strftime('%Y-%m-%d %H:%M'), ran=[])
@@ -59,7 +61,9 @@ def main():
     meta['ran'].append('tools/audit.py patch.diff %s %s  (scratch copy of /repo + patch, VERIF_REPO)' % (','.join(props), tier))
     notes = os.path.join(sd, 'notes%s.md' % k)
     meta['needs_to_manifest'] = open(notes).read()[:1500] if os.path.exists(notes) else ''
-    dst = os.path.join(V, 'seeded', '%s-%s' % (pid, k))
+    dst = os.path.join(V, 'seeded', '%s-%s%s' % (pid, suffix, k))
+    if suffix:
+        meta['round'] = 'adversarial: the producer was told what the tester covers (generator ranges, scopes, oracles) and asked to evade it'
     if confirmed:
         try:
             old = json.load(open(os.path.join(dst, 'meta.json')))
